@@ -58,6 +58,10 @@ type MProg struct {
 	Heap    []MChan
 	Selects int
 	Ranges  int
+	// how main starts the workers: "" `go worker(w, literals…)`; "fv" / "lit": through a function value / a function
+	// literal, the operands being variables (slices, the first channel, a *sync.WaitGroup) reassigned at each start
+	// and cleared after the last one
+	Spawn string
 }
 
 // ---- flattening (the Lean side) ----
@@ -265,6 +269,10 @@ func (p *MProg) Go() string {
 		}
 	}
 	fmt.Fprintf(&b, "\tres := make([][]int, %d)\n\tvar wg sync.WaitGroup\n", len(p.Acts))
+	if p.Spawn != "" {
+		b.WriteString("\tvar initv []int\n\tvar csv []chan int\n\tvar first chan int\n\tvar wgp *sync.WaitGroup\n")
+		b.WriteString("\tstart := func(w int, init []int, cs []chan int, c0 chan int, res [][]int, wg *sync.WaitGroup) {\n\t\tif len(cs) > 0 {\n\t\t\tcs[0] = c0\n\t\t}\n\t\tworker(w, init, cs, res, wg)\n\t}\n\t_ = start\n")
+	}
 	for w, a := range p.Acts {
 		var sl, ch []string
 		for _, v := range a.Slots {
@@ -273,7 +281,20 @@ func (p *MProg) Go() string {
 		for _, c := range a.Chans {
 			ch = append(ch, fmt.Sprintf("heap[%d]", c))
 		}
-		fmt.Fprintf(&b, "\twg.Add(1)\n\tgo worker(%d, []int{%s}, []chan int{%s}, res, &wg)\n", w, strings.Join(sl, ", "), strings.Join(ch, ", "))
+		switch p.Spawn {
+		case "":
+			fmt.Fprintf(&b, "\twg.Add(1)\n\tgo worker(%d, []int{%s}, []chan int{%s}, res, &wg)\n", w, strings.Join(sl, ", "), strings.Join(ch, ", "))
+		default:
+			fmt.Fprintf(&b, "\tinitv = []int{%s}\n\tcsv = []chan int{%s}\n\tfirst = nil\n\tif len(csv) > 0 {\n\t\tfirst = csv[0]\n\t\tcsv[0] = nil\n\t}\n\twgp = &wg\n\twg.Add(1)\n", strings.Join(sl, ", "), strings.Join(ch, ", "))
+			if p.Spawn == "fv" {
+				fmt.Fprintf(&b, "\tgo start(%d, initv, csv, first, res, wgp)\n", w)
+			} else {
+				fmt.Fprintf(&b, "\tgo func(w int, init []int, cs []chan int, c0 chan int, res [][]int, wg *sync.WaitGroup) {\n\t\tif len(cs) > 0 {\n\t\t\tcs[0] = c0\n\t\t}\n\t\tworker(w, init, cs, res, wg)\n\t}(%d, initv, csv, first, res, wgp)\n", w)
+			}
+		}
+	}
+	if p.Spawn != "" {
+		b.WriteString("\tinitv = nil\n\tcsv = nil\n")
 	}
 	b.WriteString("\twg.Wait()\n\tfor w := range res {\n\t\tfmt.Println(\"trace\", w, res[w])\n\t}\n")
 	b.WriteString("\tfor i := 0; i < len(heap); i++ {\n\t\tc := heap[i]\n\t\tn := len(c)\n\t\tvar vs []int\n\t\tfor k := 0; k < n; k++ {\n\t\t\tvs = append(vs, <-c)\n\t\t}\n\t\tfmt.Println(\"chan\", i, vs)\n\t}\n}\n")
